@@ -247,7 +247,15 @@ fn replay_one(w: &Workload, schedule: &str) -> Option<Violation> {
     let slot: Shared = Arc::new(Mutex::new(Slot::default()));
     let body = scenario(w, &slot);
     let sched = schedule.to_string();
-    let r = std::panic::catch_unwind(std::panic::AssertUnwindSafe(|| shuttle::replay(body, &sched)));
+    // same task stack size as the exploration (shuttle's default of 32 KiB is too small for code such as the GRL
+    // reader: a replay that overflows its stack dies with SIGSEGV instead of reproducing anything)
+    let r = std::panic::catch_unwind(std::panic::AssertUnwindSafe(|| {
+        let mut cfg = shuttle::Config::new();
+        cfg.silence_warnings = true;
+        cfg.stack_size = 0x40000;
+        cfg.failure_persistence = shuttle::FailurePersistence::None;
+        shuttle::Runner::new(shuttle::scheduler::ReplayScheduler::new_from_encoded(&sched), cfg).run(body);
+    }));
     match r {
         Ok(()) => None,
         Err(p) => {
